@@ -222,24 +222,57 @@ theorem clip_pos (pd : Rat) : 0 < (if clipDur > pd then clipDur else pd) := by
     have := not_lt.mp h
     linarith
 
-/-- ids and selected score rows of a matched score over a score table with unique ids -/
-theorem snoteIds_selectRows (ss : List SRow) (hnd : (ss.map (·.id)).Nodup) (rows : List MRow)
-    (h : ∀ r ∈ rows, ∃ s, ss[r.sidx]? = some s) :
+/-- an id that occurs at most once is found at its only position, searched from either end -/
+theorem lastIndexOf_of_count_le_one (x : String) (l : List String) (i : Nat) (hc : l.count x ≤ 1) (h : l[i]? = some x) :
+    lastIndexOf x l = some i := by
+  induction l generalizing i with
+  | nil => simp at h
+  | cons a rest ih =>
+    cases i with
+    | zero =>
+      simp only [List.getElem?_cons_zero, Option.some.injEq] at h
+      subst h
+      have hnot : a ∉ rest := by
+        intro hm
+        have := List.count_pos_iff.mpr hm
+        simp only [List.count_cons_self] at hc
+        omega
+      simp only [lastIndexOf, lastIndexOf_none a rest hnot, if_true]
+    | succ k =>
+      simp only [List.getElem?_cons_succ] at h
+      have hm : x ∈ rest := List.mem_of_getElem? h
+      have hpos := List.count_pos_iff.mpr hm
+      have hc' : rest.count x ≤ 1 := by
+        have := List.count_le_count_cons (a := x) (b := a) (l := rest)
+        omega
+      simp only [lastIndexOf, ih k hc' h]
+
+/-- ids and selected score rows of a matched score: every row's id is found (by `decode_performance`'s dict, i.e.
+    searching from the end) at the row's own index -/
+theorem snoteIds_selectRows' (ss : List SRow) (rows : List MRow)
+    (h : ∀ r ∈ rows, ∃ s, ss[r.sidx]? = some s ∧ lastIndexOf s.id (ss.map (·.id)) = some r.sidx) :
     ∃ info, snoteIds ss rows = some (info.map (·.id)) ∧ selectRows ss (info.map (·.id)) = some info ∧
       List.Forall₂ (fun (r : MRow) s => ss[r.sidx]? = some s) rows info := by
   induction rows with
   | nil => exact ⟨[], rfl, rfl, List.Forall₂.nil⟩
   | cons r rest ih =>
     obtain ⟨info, h1, h2, h3⟩ := ih (fun r hr => h r (List.mem_cons_of_mem _ hr))
-    obtain ⟨s, hs⟩ := h r (by simp)
+    obtain ⟨s, hs, this⟩ := h r (by simp)
     refine ⟨s :: info, ?_, ?_, List.Forall₂.cons hs h3⟩
     · unfold snoteIds at h1 ⊢
       simp only [List.map_cons, allSome, hs, Option.map_some, h1]
     · unfold selectRows at h2 ⊢
-      have : lastIndexOf s.id (ss.map (·.id)) = some r.sidx := by
-        apply lastIndexOf_nodup _ _ _ hnd
-        simp [hs]
       simp only [List.map_cons, allSome, this, Option.bind_some, hs, h2, Option.map_some]
+
+/-- ids and selected score rows of a matched score over a score table with unique ids -/
+theorem snoteIds_selectRows (ss : List SRow) (hnd : (ss.map (·.id)).Nodup) (rows : List MRow)
+    (h : ∀ r ∈ rows, ∃ s, ss[r.sidx]? = some s) :
+    ∃ info, snoteIds ss rows = some (info.map (·.id)) ∧ selectRows ss (info.map (·.id)) = some info ∧
+      List.Forall₂ (fun (r : MRow) s => ss[r.sidx]? = some s) rows info := by
+  apply snoteIds_selectRows'
+  intro r hr
+  obtain ⟨s, hs⟩ := h r hr
+  exact ⟨s, hs, lastIndexOf_nodup _ _ _ hnd (by simp [hs])⟩
 
 
 /-- the beat periods the tempo-curve method `m` yields for the matched notes `ns` -/
@@ -352,13 +385,14 @@ theorem zipWith3_eq_zipWith_of_get {α β γ δ ε ζ : Type} (f : α → β →
     returns, in the order of the rows and under their score ids, performed onset minus the earliest
     performed onset, the (tabled) performed duration (0 for a note without score duration) and the
     velocity -/
-theorem pipeline_roundtrip (F : Rat → Rat) (hF : ∀ r, 0 < r → F r = r)
+theorem pipeline_roundtrip' (F : Rat → Rat) (hF : ∀ r, 0 < r → F r = r)
     (m : Method) (hm : m = .average ∨ m = .derivative) (n : Norm) (sd : Rat)
     (ss : List SRow) (ps : List PRow) (al : List ARow) (rows : List MRow) (pairs : List (Nat × Nat))
     (hrows : toMatchedScore ss ps al = some rows) (hne : rows ≠ [])
     (hpairs : List.Forall₂ (fun ij r => mkRow ss ps ij = some r) pairs rows)
     (hsorted : pairs.Pairwise (fun a b => lexLe (sKey ss a.1) (sKey ss b.1) = true))
-    (hnd : (ss.map (·.id)).Nodup) (hsd : ∀ s ∈ ss, 0 ≤ s.sd) (hvel : ∀ p ∈ ps, 1 ≤ p.vel ∧ p.vel ≤ 127)
+    (hu : ∀ r ∈ rows, ∀ s, ss[r.sidx]? = some s → lastIndexOf s.id (ss.map (·.id)) = some r.sidx)
+    (hsd : ∀ s ∈ ss, 0 ≤ s.sd) (hvel : ∀ p ∈ ps, 1 ≤ p.vel ∧ p.vel ≤ 127)
     (hstd : ∀ bp, tempoOf m (rows.map toMNote) = some bp → n = .std → sd * sd = variance bp) :
     ∃ params info, encodePerformance m n sd ss ps al = some (params, info.map (·.id)) ∧
       List.Forall₂ (fun (r : MRow) s => ss[r.sidx]? = some s) rows info ∧
@@ -394,10 +428,11 @@ theorem pipeline_roundtrip (F : Rat → Rat) (hF : ∀ r, 0 < r → F r = r)
     (scale_rescale n sd bp hbppos (hstd bp hbp))
   have htrows := encode_given_rows n sd ns bp tps ht1
   -- ids and the decoder's score rows
-  obtain ⟨info, hi1, hi2, hi3⟩ := snoteIds_selectRows ss hnd rows (by
+  obtain ⟨info, hi1, hi2, hi3⟩ := snoteIds_selectRows' ss rows (by
     intro r hr
-    obtain ⟨ij, s, p, h1, _, rfl⟩ := hrow r hr
-    exact ⟨s, h1⟩)
+    obtain ⟨ij, s, p, h1, _, h3⟩ := hrow r hr
+    have h1' : ss[r.sidx]? = some s := by rw [h3]; exact h1
+    exact ⟨s, h1', hu r hr s h1'⟩)
   have hilen : info.length = rows.length := hi3.length_eq.symm
   have hnslen : ns.length = rows.length := by rw [← hns]; simp
   refine ⟨List.zipWith (fun t (r : MRow) => (t, encodeVel r.vel)) tps rows, info, ?_, hi3, ?_⟩
@@ -484,6 +519,23 @@ theorem pipeline_roundtrip (F : Rat → Rat) (hF : ∀ r, 0 < r → F r = r)
         rw [if_neg (by omega), if_neg (by omega)]
       rw [this, hnk, hns]
       by_cases h0 : (rows[k]).sd = 0 <;> simp [toMNote, h0]
+
+/-- the same over a score table with unique ids -/
+theorem pipeline_roundtrip (F : Rat → Rat) (hF : ∀ r, 0 < r → F r = r)
+    (m : Method) (hm : m = .average ∨ m = .derivative) (n : Norm) (sd : Rat)
+    (ss : List SRow) (ps : List PRow) (al : List ARow) (rows : List MRow) (pairs : List (Nat × Nat))
+    (hrows : toMatchedScore ss ps al = some rows) (hne : rows ≠ [])
+    (hpairs : List.Forall₂ (fun ij r => mkRow ss ps ij = some r) pairs rows)
+    (hsorted : pairs.Pairwise (fun a b => lexLe (sKey ss a.1) (sKey ss b.1) = true))
+    (hnd : (ss.map (·.id)).Nodup) (hsd : ∀ s ∈ ss, 0 ≤ s.sd) (hvel : ∀ p ∈ ps, 1 ≤ p.vel ∧ p.vel ≤ 127)
+    (hstd : ∀ bp, tempoOf m (rows.map toMNote) = some bp → n = .std → sd * sd = variance bp) :
+    ∃ params info, encodePerformance m n sd ss ps al = some (params, info.map (·.id)) ∧
+      List.Forall₂ (fun (r : MRow) s => ss[r.sidx]? = some s) rows info ∧
+      decodePerformance n ss (info.map (·.id)) (params.map (viaLog F n)) =
+        some (List.zipWith (fun (s : SRow) (r : MRow) =>
+          (s.id, r.po - minPo (rows.map toMNote), if r.sd = 0 then 0 else r.pd, r.vel)) info rows) :=
+  pipeline_roundtrip' F hF m hm n sd ss ps al rows pairs hrows hne hpairs hsorted
+    (fun _ _ s hs => lastIndexOf_nodup _ _ _ hnd (by simp [hs])) hsd hvel hstd
 
 -- ------------------------------------------------------------------ ids of the decoded notes
 
